@@ -30,6 +30,7 @@ type Script struct {
 	Quick   []int  `json:"quick"`              // run times (ms) of quick foreground commands before the main one
 	Bg      bool   `json:"bg,omitempty"`       // a well-behaved background process (exits 10ms after an interrupt) is running meanwhile
 	BgInt   string `json:"bg_int,omitempty"`   // the background process's reaction to SIGINT (what the end-of-script clean-up sends): "" = exits after 10ms | ignore | a delay; it always exits 10ms after a SIGQUIT
+	BgDeaf  bool   `json:"bg_deaf,omitempty"`  // the background process ignores the deadline's SIGQUIT (it still exits 10ms after the clean-up's SIGINT)
 	BgSlow  bool   `json:"bg_slow,omitempty"`  // the background process takes one and a half grace periods (as aimed) to exit after the SIGQUIT - still before the deadline
 	Mode    string `json:"mode"`               // main command: early | around | forever
 	RelNs   int64  `json:"rel_ns,omitempty"`   // around: natural exit instant relative to the interrupt instant (may be negative)
@@ -80,6 +81,7 @@ func genPlan(t *rapid.T, tier string) any {
 			// ends by itself would legitimately wait for such a process without limit
 			s.BgInt = rapid.SampledFrom([]string{"", "", "ignore", "40s", "3s"}).Draw(t, "bgint")
 			s.BgSlow = s.BgInt != "" && rapid.Bool().Draw(t, "bgslow")
+			s.BgDeaf = s.BgInt == "" && rapid.IntRange(0, 2).Draw(t, "bgdeaf") == 0
 		}
 		s.EarlyMs = rapid.IntRange(1, 60).Draw(t, "early")
 		s.RelNs = rapid.SampledFrom(relChoices).Draw(t, "rel")
@@ -155,7 +157,11 @@ func scriptText(i int, s Script, interruptAt, grace time.Duration) string {
 		if s.BgSlow {
 			bgQuit = grace*3/2 + time.Duration(7+i)*time.Nanosecond
 		}
-		fmt.Fprintf(&b, "exec stub bg=true run=forever quit=%dns int=%s &\n", int64(bgQuit), bgInt)
+		if s.BgDeaf {
+			fmt.Fprintf(&b, "exec stub bg=true run=forever quit=ignore int=%s &\n", bgInt)
+		} else {
+			fmt.Fprintf(&b, "exec stub bg=true run=forever quit=%dns int=%s &\n", int64(bgQuit), bgInt)
+		}
 	}
 	main := "exec stub fg=true"
 	if s.Neg {
@@ -587,7 +593,7 @@ var harness = &simcheck.Harness{
 	Assumptions: []string{
 		"the grace period is not hard-coded in the oracle: only 'interrupt->kill equals kill->deadline, both positive' and 'everything ends by the deadline' are required",
 		"exact ties between a process exit and the interrupt/kill instant are not generated (all instants differ by at least 1 ns)",
-		"background processes always exit promptly on the deadline's interrupt signal (SIGQUIT); ones that ignore or are slow to act on the clean-up's SIGINT are generated only next to a foreground command that blocks forever (elsewhere the script would legitimately wait for them without limit)",
+		"a background process reacts promptly to at least one of the two signals it is sent (the deadline's SIGQUIT, the clean-up's SIGINT); ones deaf or slow to one of them are generated only next to a foreground command that blocks forever (elsewhere the script would legitimately wait for them without limit); one deaf to both hangs the unchanged code too and is outside the statement",
 	},
 	RequiredCounters: []string{"proc_starts", "probe_foreground_interrupted", "probe_foreground_force_killed"},
 }
